@@ -3,23 +3,28 @@
 (* cycle, every output Ref allows, up to MaxReq accepted requests.                                    *)
 EXTENDS HsGen, TLC
 
-CONSTANT MaxReq
+CONSTANTS MaxReq, MaxResets
 
-Inputs == [ack : BOOLEAN, nak : BOOLEAN, stall : BOOLEAN, ready : BOOLEAN]
+VARIABLE nrst
+mcvars == <<vars, nrst>>
+
+Inputs == [ack : BOOLEAN, nak : BOOLEAN, stall : BOOLEAN, ready : BOOLEAN, rst : {FALSE}]
 Outputs(i) == {o \in [valid : BOOLEAN, data : {0} \cup BytesOf(Kinds) \cup {byte}] :
                  /\ OutViolation(i, o) = "ok"
                  /\ (~o.valid => o.data = 0)}               \* tx_data is a don't-care while tx_valid is low
 
 Cycle(i) == \E o \in Outputs(i) : Step(i, o)
 
-IdleNoRequest   == \E i \in Inputs : st = "idle" /\ Requested(i) = {} /\ Cycle(i)
-IdleRequest     == \E i \in Inputs : st = "idle" /\ Requested(i) # {} /\ Len(reqLog) < MaxReq /\ Cycle(i)
-PendingCycle    == \E i \in Inputs : st = "pending" /\ Cycle(i)
-SendingStalled  == \E i \in Inputs : st = "sending" /\ ~i.ready /\ Cycle(i)
-SendingAccepted == \E i \in Inputs : st = "sending" /\ i.ready /\ Cycle(i)
+IdleNoRequest   == \E i \in Inputs : st = "idle" /\ Requested(i) = {} /\ Cycle(i) /\ UNCHANGED nrst
+IdleRequest     == \E i \in Inputs : st = "idle" /\ Requested(i) # {} /\ Len(reqLog) < MaxReq /\ Cycle(i) /\ UNCHANGED nrst
+PendingCycle    == \E i \in Inputs : st = "pending" /\ Cycle(i) /\ UNCHANGED nrst
+SendingStalled  == \E i \in Inputs : st = "sending" /\ ~i.ready /\ Cycle(i) /\ UNCHANGED nrst
+SendingAccepted == \E i \in Inputs : st = "sending" /\ i.ready /\ Cycle(i) /\ UNCHANGED nrst
+Reset           == \E i \in Inputs : nrst < MaxResets /\ Cycle([i EXCEPT !.rst = TRUE]) /\ nrst' = nrst + 1
 
-Next == IdleNoRequest \/ IdleRequest \/ PendingCycle \/ SendingStalled \/ SendingAccepted
-Spec == Init /\ [][Next]_vars
+Next == IdleNoRequest \/ IdleRequest \/ PendingCycle \/ SendingStalled \/ SendingAccepted \/ Reset
+MCInit == Init /\ nrst = 0
+Spec == MCInit /\ [][Next]_mcvars
 
 TypeOK == /\ st \in {"idle", "pending", "sending"} /\ kinds \subseteq Kinds /\ age \in 0..GLat
           /\ (st = "pending" <=> kinds # {}) /\ (st = "sending" => byte \in BytesOf(Kinds))
